@@ -1,6 +1,7 @@
 import Flatland.JsonUtil
 import Flatland.Markup.Json
 import Flatland.C11
+import Flatland.C19
 open Lean Flatland.J
 namespace Flatland.Run.C11
 open Flatland.Markup Flatland.Markup.Json Flatland.C11 Flatland.Generated.C11
@@ -38,13 +39,49 @@ def runSugar (j : Json) : Except String Json := do
   return obj [("x", ofStr x), ("xa", ofStr xa),
     ("x_dec", ofStr (decodeRefs x)), ("xa_dec", ofStr (decodeRefs xa))]
 
+/-- one pre-history call: the generator afterwards and the exception raised (if any) -/
+def preStep (T : Tables) (g : Gen) (p : Json) : Except String (Gen × Option PyErr) := do
+  let settingsOp (op : Flatland.C19.Op) : Gen × Option PyErr :=
+    let (g', o) := Flatland.C19.step T Flatland.C19.RenderCfg.current g op
+    (g', o.err)
+  match (← sfld p "op") with
+  | "begin" => return settingsOp (.begin (← parsePairs parseCVal (← fld p "settings")))
+  | "end" => return settingsOp .end_
+  | "set" => return settingsOp (.set (← parsePairs parseCVal (← fld p "settings")))
+  | "setitem" => return settingsOp (.setItem (← cfld p "key") (← parseCVal (← fld p "value")))
+  | "update" =>
+    let posJ := fldD p "pos" Json.null
+    let pos ← if isNull posJ then pure [] else parsePairs parseCVal posJ
+    return settingsOp (.update (pos ++ (← parsePairs parseCVal (← fld p "settings"))))
+  | "tag" =>
+    match fldD p "badbind" (Json.bool false) with
+    | Json.bool true => return (g, some PyErr.attributeError)
+    | _ =>
+      let tag0 ← cfld p "tag"
+      let tag := if (← sfld p "via") == "tag" then asciiLower tag0 else tag0
+      let (res, g') := g.renderHow T attrChain voidElements staticAttributeOrder (← parseHow p) tag
+        (← parseBind (← fld p "bind")) (← parsePairs parseVal (← fld p "kwargs"))
+      match res with
+      | .ok _ => return (g', none)
+      | .error e => return (g', some e)
+  | o => throw s!"unknown pre-history op {o}"
+
 /-- several renderings on ONE generator, possibly through held Tag objects -/
 def runSeq (j : Json) : Except String Json := do
   let T := Tables.current
   match Gen.init T (← cfld j "markup") (← parsePairs parseCVal (← fld j "settings")) with
-  | .error e => return obj [("init_err", Json.str e.name), ("outs", Json.arr #[])]
+  | .error e => return obj [("init_err", Json.str e.name), ("pre", Json.arr #[]), ("outs", Json.arr #[])]
   | .ok g0 =>
     let mut g := g0
+    -- pre-history: calls made (and caught) on the same generator before the renderings.  Settings calls run through the
+    -- C19 model (`Flatland.C19.step`: a rejected call leaves the generator as it was), tag calls through `renderHow`
+    -- (stateless in the Tag object); a bind that is not an element (`badbind`, auto_name forced on) raises
+    -- AttributeError in the first transform, before anything is read or written
+    let mut pres : Array Json := #[]
+    for p in (← arr (fldD j "pre" (Json.arr #[]))) do
+      let (g', e) ← preStep T g p
+      g := g'
+      pres := pres.push (obj [("err", ofErr e)])
     let mut outs : Array Json := #[]
     for c in (← afld j "calls") do
       let tag0 ← cfld c "tag"
@@ -56,7 +93,7 @@ def runSeq (j : Json) : Except String Json := do
       match res with
       | .ok (s, ct) => outs := outs.push (obj [("out", ofStr s), ("contents", ofOpt ofStr ct), ("err", Json.null)])
       | .error e => outs := outs.push (obj [("out", Json.null), ("contents", Json.null), ("err", Json.str e.name)])
-    return obj [("init_err", Json.null), ("outs", Json.arr outs)]
+    return obj [("init_err", Json.null), ("pre", Json.arr pres), ("outs", Json.arr outs)]
 
 def run (j : Json) : Except String Json := do
   match (← sfld j "k") with
